@@ -9,7 +9,7 @@ import (
 
 // A Script is a frame sequence a raw peer sends to a library endpoint.
 type Script struct {
-	Role   Role        // role of the RECEIVING library endpoint
+	Role   Role // role of the RECEIVING library endpoint
 	Params wire.Params
 	Frames []wire.Frame
 	Notes  []string // one human readable note per frame
